@@ -317,6 +317,7 @@ func deepCopyCtx(c pongo2.Context) pongo2.Context {
 }
 
 func suiteC12(cfg Config, res *Result) {
+	defer c12OddKeys(res)
 	defer c12LiveGlobals(res)
 	defer c12ChainMacroClash(res)
 	defer liveGlobals(res, "reference", "c12-globals")
